@@ -7,7 +7,9 @@
     deferred form), WELOPEN (well form and connection/completion form), WCONPROD, WCONINJE,
     WCONHIST, WCONINJH, WHISTCTL, WELTARG, WEFAC, WECON, WTEST, WLIST (NEW/ADD/DEL/MOV, and `*LIST`
     patterns in every well-name item), GRUPTREE, GEFAC, GCONPROD, GCONINJE, NEXTSTEP,
-    UDQ ASSIGN/DEFINE/UNITS (registry), and the ACTIONX ... ENDACTIO registry.
+    UDQ ASSIGN/DEFINE/UNITS (registry), the ACTIONX ... ENDACTIO registry, and COMPORD (the
+    connection ordering TRACK/DEPTH/INPUT a well gets when WELSPECS creates it, looked up in the
+    first COMPORD keyword of the *same* report step; `WellConnections::order()` after COMPDAT).
 
   The state is split into channels so that what a handler may read and write is fixed by its
   *type* (this is what makes the C04 commutation argument structural):
@@ -18,6 +20,9 @@
                      the deferred WPIMULT factors of the report step being processed
     st   : StatMap   well name ↦ well status
     mark : wells carrying ACTIONX_WELL_EVENT at this report step
+    ev   : wells carrying WELL_STATUS_CHANGE at this report step (`Schedule::updateWellStatus`, the
+           only emitter: the status written differs from the status the well had); written from
+           the status channel, read by nothing
 
   A *property* record operation reads `p` and — of the connection channel — only whether a well
   has connections at all (`e : String → Bool`), and produces a new `p` plus a list of status
@@ -30,7 +35,8 @@
 
   Not modelled (see design.d/C03.md): events other than the ACTIONX marker, VFP/THP/ALQ, guide
   rates, UDQ-valued items, WELTARG modes THP/VFP/LIFT/GUID (`unsupported`), has_produced /
-  has_injected, ordering of the connections inside a well (the record is sorted by cell).
+  has_injected, the sequence of the connections of a well whose head was changed by a later
+  WELSPECS (`WellP.moved`; the record is then sorted by cell).
 -/
 import OpmVerif.Model.SchedDeck
 
@@ -107,6 +113,12 @@ structure WellP where
   efac : Val
   /-- WECON: (min oil rate SI, max water cut, workover procedure) -/
   econ : Val × Val × String
+  /-- Connection::Order of the well's `WellConnections` (0 TRACK, 1 DEPTH, 2 INPUT): fixed when
+  WELSPECS creates the well, from the COMPORD keyword of that report step -/
+  order : Nat := 0
+  /-- a later WELSPECS changed the head: the head the `WellConnections` object orders by is then
+  history dependent (outside the model; the connection sequence is no longer observed) -/
+  moved : Bool := false
 deriving DecidableEq, Repr
 
 /-- GCONINJE of one phase. -/
@@ -265,6 +277,9 @@ inductive CKw
   | ops (name : String) (rs : List ROp)
   | actionx (aname : String)
   | endactio
+  /-- COMPORD: (well name pattern, order code 0 TRACK / 1 DEPTH / 2 INPUT) per record.  It has no
+  handler of its own (`handleCOMPORD` is empty): `welspecsCreateNewWell` looks it up in the block. -/
+  | compord (recs : List (String × Nat))
 deriving DecidableEq, Repr
 
 structure WTest where
@@ -297,6 +312,9 @@ structure Props where
   whistctl : Nat := 1024
   /-- number of `create_next` calls so far (= current report step + 1) -/
   nstep : Nat := 0
+  /-- records of the first COMPORD keyword of the report step being processed
+  (`block.get("COMPORD")` in `HandlerContext::welspecsCreateNewWell`) -/
+  compord : List (String × Nat) := []
 deriving DecidableEq, Repr
 
 abbrev ConnMap := List (String × List Conn)
@@ -313,6 +331,8 @@ structure State where
   c : ConnChan := {}
   st : StatMap := []
   mark : List String := []
+  /-- wells with a WELL_STATUS_CHANGE event in the report step being processed -/
+  ev : List String := []
 deriving DecidableEq, Repr
 
 /-! ### small association-list toolkit -/
@@ -339,6 +359,12 @@ def statusOf (st : StatMap) (w : String) : Status := (lookup st w).getD .shut
 
 def applyWrites (st : StatMap) (ws : List (String × Status)) : StatMap :=
   ws.foldl (fun m (w : String × Status) => setKey m w.1 w.2) st
+
+/-- The WELL_STATUS_CHANGE events of a list of status writes (`Schedule::updateWellStatus`: an
+event when the new status differs from the old one), in the order of the writes. -/
+def evWrites : StatMap → List (String × Status) → List String
+  | _, [] => []
+  | st, ws :: r => (if statusOf st ws.1 = ws.2 then [] else [ws.1]) ++ evWrites (setKey st ws.1 ws.2) r
 
 def dedup : List String → List String
   | [] => []
@@ -608,7 +634,9 @@ def regroup (e : String → Bool) (group : String) (i j : Option Nat) :
       else
         match addWellToGroup gs w.group group n with
         | .error e => .error e
-        | .ok gs' => regroup e group i j (modify wl n fun x => { x with group := group, headI := hi, headJ := hj }) gs' r
+        | .ok gs' =>
+          let mv := hi != w.headI || hj != w.headJ
+          regroup e group i j (modify wl n fun x => { x with group := group, headI := hi, headJ := hj, moved := x.moved || mv }) gs' r
 
 def reasonMask (s : String) : Nat :=
   s.toList.foldl (fun a c => a + (if c = 'P' then 1 else if c = 'E' then 2 else if c = 'G' then 4
@@ -637,6 +665,11 @@ def udqNode (u : List (String × UdqE)) (q : String) (action : Nat) : List (Stri
                    typedIdx := (u.filter fun (n, _) => udqType n = udqType q).length + 1,
                    define := none, assigned := false })]
 
+/-- `welspecsCreateNewWell`: the order of the last record of the block's COMPORD keyword whose
+pattern matches the new well's name; TRACK when there is none. -/
+def orderFor (tbl : List (String × Nat)) (name : String) : Nat :=
+  tbl.foldl (fun o (po : String × Nat) => if glob po.1 name then po.2 else o) 0
+
 /-- One property record.  `m` = matching wells of the running action (empty outside actions),
 `e w` = well `w` has no connections (the only thing a property operation sees of the connection
 channel). -/
@@ -653,7 +686,8 @@ def stepP (k : Consts) (m : List String) (e : String → Bool) (p : Props) : ROp
           match i, j with
           | some hi, some hj =>
             let w : WellP := { group := group, headI := hi, headJ := hj, head0I := hi, head0J := hj, efac := k.one,
-                               prod := newProd k p.whistctl, inj := newInj k, econ := (k.num0, k.num0, "NONE") }
+                               prod := newProd k p.whistctl, inj := newInj k, econ := (k.num0, k.num0, "NONE"),
+                               order := orderFor p.compord name }
             match addWellToGroup gs group group name with
             | .error e => .error e
             | .ok gs' => .ok ({ p with wells := p.wells ++ [(name, w)], groups := gs' }, [])
@@ -832,6 +866,61 @@ connection is passed through `f`. -/
 def rebuild (c : ConnMap) (n : String) (f : Conn → Conn) : ConnMap :=
   modify c n fun cs => cs.map f
 
+/-! #### `WellConnections::order()`
+
+Depth enters only through comparisons; the model represents the depth of a connection by its
+layer index `k` and the surface by `none` (generator assumption: a layer-cake grid — the cell
+depth is strictly increasing in k and the same in every column). -/
+
+def dist2 (oi oj : Nat) (c : Conn) : Nat :=
+  ((c.i - oi) + (oi - c.i)) * ((c.i - oi) + (oi - c.i)) + ((c.j - oj) + (oj - c.j)) * ((c.j - oj) + (oj - c.j))
+
+def zdiff (oz : Option Nat) (kk : Nat) : Nat :=
+  match oz with
+  | none => kk + 1
+  | some z => (kk - z) + (z - kk)
+
+/-- `c` replaces the best candidate so far in `findClosestConnection`: strictly smaller column
+distance, or the same distance and strictly smaller depth difference (the first minimum wins). -/
+def closer (oi oj : Nat) (oz : Option Nat) (c best : Conn) : Bool :=
+  dist2 oi oj c < dist2 oi oj best || (dist2 oi oj c == dist2 oi oj best && zdiff oz c.k < zdiff oz best.k)
+
+/-- `findClosestConnection` over `best :: rest`: position of the winner (`best` is at `bi`, the
+head of the rest at `pos`). -/
+def closestIdx (oi oj : Nat) (oz : Option Nat) : List Conn → Nat → Nat → Conn → Nat
+  | [], _, bi, _ => bi
+  | c :: r, pos, bi, b =>
+    if closer oi oj oz c b then closestIdx oi oj oz r (pos + 1) pos c else closestIdx oi oj oz r (pos + 1) bi b
+
+/-- `std::swap(v[0], v[idx])` on the non-empty list `c :: cs`. -/
+def swapToFront (c : Conn) (cs : List Conn) (idx : Nat) : Conn × List Conn :=
+  match idx with
+  | 0 => (c, cs)
+  | n + 1 =>
+    match cs[n]? with
+    | some x => (x, cs.set n c)
+    | none => (c, cs)
+
+/-- `orderTRACK` on the suffix whose predecessor is at column (oi, oj), depth oz. -/
+def trackFrom : Nat → Nat → Nat → Option Nat → List Conn → List Conn
+  | 0, _, _, _, cs => cs
+  | _, _, _, _, [] => []
+  | fuel + 1, oi, oj, oz, c :: cs =>
+    let ht := swapToFront c cs (closestIdx oi oj oz cs 1 0 c)
+    ht.1 :: trackFrom fuel ht.1.i ht.1.j (some ht.1.k) ht.2
+
+/-- Stable insertion by depth (libstdc++'s `std::sort` below 17 elements). -/
+def insertByDepth (c : Conn) : List Conn → List Conn
+  | [] => [c]
+  | d :: ds => if c.k < d.k then c :: d :: ds else d :: insertByDepth c ds
+
+/-- `WellConnections::order()` for a well without segments; `hi`, `hj` = head (1-based) of the
+`WellConnections` object. -/
+def reorder (ord hi hj : Nat) (cs : List Conn) : List Conn :=
+  if ord = 0 then trackFrom cs.length (hi - 1) (hj - 1) none cs
+  else if ord = 1 then cs.foldl (fun acc c => insertByDepth c acc) []
+  else cs
+
 def stepC (k : Consts) (m : List String) (p : Props) (c : ConnChan) : ROp → Except Err ConnChan
   | .compdat pat i j k1 k2 state =>
     match wellNamesLst (names p.wells) p.wlists m pat with
@@ -849,7 +938,10 @@ def stepC (k : Consts) (m : List String) (p : Props) (c : ConnChan) : ROp → Ex
         | some w =>
           let ci := if i = 0 then w.head0I - 1 else i - 1
           let cj := if j = 0 then w.head0J - 1 else j - 1
-          setKey cm n ((rangeIncl (k1 - 1) (k2 - 1)).foldl (fun cs kk => if k1 = 0 then cs else putConn k.one cs ci cj kk state) (connsOf cm n))) c.m }
+          -- `Well::updateConnections` orders the new connection set (TRACK: from the head the
+          -- `WellConnections` object was built with)
+          setKey cm n (reorder w.order w.head0I w.head0J
+            ((rangeIncl (k1 - 1) (k2 - 1)).foldl (fun cs kk => if k1 = 0 then cs else putConn k.one cs ci cj kk state) (connsOf cm n)))) c.m }
   | .welopenC pat cstate i j kk c1 c2 =>
     match wellNamesLst (names p.wells) p.wlists m pat with
     | .error e => .error e
@@ -894,7 +986,7 @@ def stepR (k : Consts) (m : List String) (s : State) (r : ROp) : Except Err Stat
   else
     match stepP k m (emp s.c) s.p r with
     | .error e => .error e
-    | .ok (p', ws) => .ok { s with p := p', st := applyWrites s.st ws }
+    | .ok (p', ws) => .ok { s with p := p', st := applyWrites s.st ws, ev := s.ev ++ evWrites s.st ws }
 
 def runOps (k : Consts) (m : List String) (s : State) : List ROp → Except Err State
   | [] => .ok s
@@ -908,6 +1000,7 @@ def handle (k : Consts) (m : List String) (s : State) : CKw → Except Err State
   | .ops _ rs => runOps k m s rs
   | .actionx _ => .ok s       -- only reachable through applyAction bodies; no handler effect
   | .endactio => .ok s
+  | .compord _ => .ok s       -- `handleCOMPORD` is empty
 
 def addAction (s : State) (n : String) (body : List CKw) : State :=
   { s with p := { s.p with actions := setKey s.p.actions n body } }
@@ -923,6 +1016,7 @@ def runKws (k : Consts) : Option (String × List CKw) → State → List CKw →
     | .error e => .error e
     | .ok s' => runKws k none s' r
   | some (n, acc), s, .endactio :: r => runKws k none (addAction s n acc) r
+  | some _, _, .compord _ :: _ => .error .input            -- not an ACTIONX keyword (ACTIONX_ILLEGAL_KEYWORD throws)
   | some (n, acc), s, kw :: r => runKws k (some (n, acc ++ [kw])) s r
 
 def allShut (cs : List Conn) : Bool := !cs.isEmpty && cs.all (fun x => x.state = 2)
@@ -937,24 +1031,37 @@ well list and the connection channel only. -/
 def endReportWrites (p : Props) (c : ConnMap) : List (String × Status) :=
   (names p.wells).flatMap fun w => if allShut (connsOf c w) then [(w, Status.shut)] else []
 
-def endReport (s : State) : State := { s with st := applyWrites s.st (endReportWrites s.p s.c.m) }
+def endReport (s : State) : State :=
+  { s with st := applyWrites s.st (endReportWrites s.p s.c.m), ev := s.ev ++ evWrites s.st (endReportWrites s.p s.c.m) }
 
 /-- End of a block (and of `applyAction`'s handler loop): deferred WPIMULT, then end_report. -/
 def closeBlock (s : State) : State := endReport { s with c := applyGlobal s.c }
 
-/-- `create_next`: the new snapshot is a copy with the per-step event marker reset, the
+/-- `create_next`: the new snapshot is a copy with the per-step events (marker, status changes) reset, the
 report-step counter advanced and a one-shot NEXTSTEP dropped; the deferred WPIMULT map of the
 iteration is a fresh local. -/
 def createNext (s : State) : State :=
-  { s with mark := [],
+  { s with mark := [], ev := [],
            p := { s.p with nstep := s.p.nstep + 1,
                            nextstep := match s.p.nextstep with
                              | some (v, true) => some (v, true)
                              | _ => none },
            c := { s.c with g := [] } }
 
+/-- `ScheduleBlock::get("COMPORD")`: the records of the first COMPORD keyword of the block. -/
+def compordOf : List CKw → List (String × Nat)
+  | [] => []
+  | .compord recs :: _ => recs
+  | _ :: r => compordOf r
+
+/-- The state the handlers of a block start from: `create_next`, and the block's own COMPORD
+keyword made available to WELSPECS — a look-ahead inside the report step, never beyond it. -/
+def beginBlock (s : State) (kws : List CKw) : State :=
+  let s' := createNext s
+  { s' with p := { s'.p with compord := compordOf kws } }
+
 def stepBlock (k : Consts) (s : State) (kws : List CKw) : Except Err State :=
-  match runKws k none (createNext s) kws with
+  match runKws k none (beginBlock s kws) kws with
   | .error e => .error e
   | .ok s' => .ok (closeBlock s')
 
